@@ -190,6 +190,7 @@ fn simpler_programs(p: &Program) -> Vec<Program> {
                 Op::UpdateIf(t, _) => Some(Op::Update(*t)),
                 Op::WriteRmw(t) => Some(Op::Update(*t)),
                 Op::ReadHold => Some(Op::Get),
+                Op::SubReadHold => Some(Op::SubGet),
                 Op::Upgrade { keep: true } => Some(Op::Upgrade { keep: false }),
                 Op::Subscribe { reset: true } => Some(Op::Subscribe { reset: false }),
                 _ => None,
